@@ -24,8 +24,16 @@ def bounds(tier):
 
 
 def cases(tier, seed):
-    for cid, specs in C.grouped(tier, seed, PER_CASE, families=FAMS, prefix="C03|"):
+    for cid, specs in C.grouped(tier, seed, PER_CASE, families=[f for f in FAMS if f != "cyclic"], prefix="C03|"):
         yield cid, {"specs": specs, "tier": tier}
+    # cyclic codes: every configuration of one length lives in ONE process and is visited in catalogue order and then (fresh objects) in
+    # reverse order, so that state shared between instances (class-level caches keyed too coarsely) is exposed deterministically
+    byn = {}
+    for spec in C.cyclic(tier, seed):
+        byn.setdefault(spec[2].get("n", spec[2].get("name")), []).append(spec)
+    for n, specs in byn.items():
+        sel = [s_ for s_ in specs if s_[2].get("form", "g") == "g"]
+        yield f"C03|cyclic|n={n}", {"specs": specs + list(reversed(sel)), "tier": tier}
     if tier == "quick":
         # the larger fields are cheap for this property (one encoder + one distance computation per configuration): always include them
         extra = [s for s in C.bch("thorough", seed) if s[2].get("mu", 0) in (5, 6) or "(31," in s[1] or "(63," in s[1]]
